@@ -43,16 +43,16 @@ def replaceFirst (old new : Str) : Str → Str
     if hasPrefix (c :: cs) old then new ++ (c :: cs).drop old.length
     else c :: replaceFirst old new cs
 
-/-- `strings.ReplaceAll(s, old, new)` for a non-empty `old` (leftmost, non-overlapping); every
-    step consumes at least one character, `fuel = len(s)` suffices. -/
-def replaceAllAux (old new : Str) : Nat → Str → Str
-  | 0, s => s
-  | _ + 1, [] => []
-  | fuel + 1, c :: cs =>
-    if hasPrefix (c :: cs) old then new ++ replaceAllAux old new fuel ((c :: cs).drop old.length)
-    else c :: replaceAllAux old new fuel cs
+/-- `strings.ReplaceAll(s, old, new)` for a non-empty `old` (leftmost, non-overlapping matches),
+    as one pass over the text: `skip` counts the characters of the current match still to drop. -/
+def replaceAllSkip (old new : Str) : Nat → Str → Str
+  | _, [] => []
+  | skip + 1, _ :: cs => replaceAllSkip old new skip cs
+  | 0, c :: cs =>
+    if hasPrefix (c :: cs) old then new ++ replaceAllSkip old new (old.length - 1) cs
+    else c :: replaceAllSkip old new 0 cs
 
-def replaceAll (old new s : Str) : Str := replaceAllAux old new s.length s
+def replaceAll (old new s : Str) : Str := replaceAllSkip old new 0 s
 
 /-- `strings.Split(s, string(sep))` -/
 def splitOnChar (sep : Char) : Str → List Str
@@ -229,27 +229,23 @@ def wildcardRegexpText (query : Str) (exact : Bool) : Str :=
 
 /-- recogniser of the expression class the text above must stay in (a sound under-approximation of
     what `regexp.Compile` accepts): a sequence of escaped punctuation `\p`, the class text
-    `[legalChars]*?`, `.*`, characters that are not metacharacters, and a final `$`. -/
-def regexBodyOK : Nat → Str → Bool
-  | 0, s => s.isEmpty
-  | _ + 1, [] => true
-  | fuel + 1, c :: cs =>
-    if c = '\\' then
-      match cs with
-      | d :: r => regexMetaChars.contains d && regexBodyOK fuel r
-      | [] => false
-    else if hasPrefix (c :: cs) starClass then regexBodyOK fuel ((c :: cs).drop starClass.length)
-    else if c = '.' then
-      match cs with
-      | '*' :: r => regexBodyOK fuel r
-      | _ => false
+    `[legalChars]*?`, `.*`, characters that are not metacharacters, and a final `$`.
+    One pass; `skip` counts the characters of the class text still to pass over. -/
+def regexScan : Nat → Str → Bool
+  | _, [] => true
+  | skip + 1, _ :: cs => regexScan skip cs
+  | 0, '\\' :: d :: r => regexMetaChars.contains d && regexScan 0 r
+  | 0, ['\\'] => false
+  | 0, '.' :: '*' :: r => regexScan 0 r
+  | 0, c :: cs =>
+    if hasPrefix (c :: cs) starClass then regexScan (starClass.length - 1) cs
     else if c = '$' then cs.isEmpty
-    else !regexMetaChars.contains c && regexBodyOK fuel cs
+    else !regexMetaChars.contains c && regexScan 0 cs
 
 /-- `regexp.MustCompile(text)` does not panic (for texts of the shape `^body` / `^body$`) -/
 def compiles (text : Str) : Bool :=
   match text with
-  | '^' :: body => regexBodyOK body.length body
+  | '^' :: body => regexScan 0 body
   | _ => false
 
 /-- `MatchWildcardRegexp`: the panic of `MustCompile` as a value -/
